@@ -227,6 +227,11 @@ SPECS = {
         "A.arange(8, label='angles', step=0.7, start=-2.8), A.arange(15, label='radial'), 'argmax')",
         "abel.tools.circularize.correction(A.arr(30 * np.exp(-(np.arange(15)[None, :] - 7.0 - 0.2 * np.arange(8)[:, None]) ** 2 / 6) + 1, label='polarIMTrans'), "
         "A.arange(8, label='angles', step=0.7, start=-2.8), A.arange(15, label='radial'), 'lsq')"]),
+    # ----------------------------------------------------------------------- io
+    'abel.tools.io.save_npy_atomic': dict(arrays=['array'], calls=[
+        "(lambda d: (abel.tools.io.save_npy_atomic(os.path.join(d, 'a.npy'), A.rand(4, 5, label='array')), "
+        "np.load(os.path.join(d, 'a.npy')), sorted(os.listdir(d)), __import__('shutil').rmtree(d))[1:3])"
+        "(__import__('tempfile').mkdtemp(prefix='c18-', dir='/var/tmp'))"]),
     # --------------------------------------------------------------------- math
     'abel.tools.math.gradient': dict(arrays=['f', 'x'], calls=[
         "abel.tools.math.gradient(A.img(7, 9, label='f'))",
